@@ -349,7 +349,8 @@ def run(ctx, rep):
             cfgf = ctx.cfg(f)
             n = [x for x in cfgf.live_nodes() if call in walk_calls(x.exprs)][0]
             gs = [utext(g.exprs[0]) for g, pol in cfgf.guards(n.id) if pol]
-            rep.check(any(t.startswith(var + " in ") and t.endswith("live_orders") for t in gs), "R4",
+            from sa.kinds import absence_tolerated
+            rep.check(any(t.startswith(var + " in ") and t.endswith("live_orders") for t in gs) or absence_tolerated(f, call), "R4",
                       key(f, call, "removal guarded by membership of the live list"), f, call, str(gs))
     allc = [cs for cs in res.call_sites_of(co)]
     rep.check(len(allc) == len(probes), "R4", "every complete_order call was analysed", None, None,
